@@ -47,11 +47,11 @@ let loop_case toks =
     let (phases_rev, bodies, cur, inbody) = parse_ops ops in
     let has_body = List.exists (fun t -> t = "[") ops in
     let phases = List.rev (if has_body then phases_rev else (List.rev cur :: phases_rev)) in
-    let (x, fin) = run_script (nat_of_int 30000) rk (String.length pick > 0 && pick.[0] = 'h') (nati nfd) phases bodies in
+    let (x, fin) = run_script (nat_of_int 30000) rk (String.length pick > 0 && pick.[0] = 'h') (String.length pick > 0 && pick.[0] = 'a') (nati nfd) phases bodies in
     let subs = List.map (fun (k, v) -> soi (int_of_n k) ^ ":" ^ (match v with
       | SP -> "p" | SPE -> "pe" | ST dl -> "t" ^ soi (int_of_n dl) | SI f -> "i" ^ soi (int_of_nat f) | SO f -> "o" ^ soi (int_of_nat f))) x.sout in
     let log = List.map (fun ((h, c), t) -> soi (int_of_n h) ^ ":" ^ code_name c ^ "@" ^ soi (int_of_n t)) x.ms.log in
-    "loop sub=" ^ join subs ^ " log=" ^ join log ^ " flags=" ^ (if not fin then "FUEL" else if int_of_nat x.stage = 3 then "EXC-sys9" else "-")
+    "loop sub=" ^ join subs ^ " log=" ^ join log ^ " flags=" ^ (if not fin then "FUEL" else if int_of_nat x.stage = 3 then "EXC-sys9" else "-") ^ " mode=" ^ pick
   | _ -> "loop BAD-CASE"
 
 let pool_case toks =
